@@ -6,7 +6,8 @@ ITERATED (as opposed to looked up), i.e. where run-to-run hash seeds can influen
 covers its consumer) and exits 1 if a site is new, gone or changed."""
 import re, sys, os, json, glob
 
-SRC = '/repo/src'
+REPO = os.environ.get('VERIF_REPO', '/repo')   # (a scratch copy when a seeded change is tried)
+SRC = REPO + '/src'
 DECL = re.compile(r'\b([a-z_][a-z0-9_]*)\s*:\s*(?:&(?:mut\s+)?)?(?:Vec<)?(?:std::collections::)?(?:HashMap|HashSet|IdMap)\b')
 LET = re.compile(r'\blet\s+(?:mut\s+)?([a-z_][a-z0-9_]*)\s*(?::[^=]*)?=\s*(?:std::collections::)?(?:HashMap|HashSet|IdMap)(?:::<[^>]*>)?::')
 RET = re.compile(r'fn\s+([a-z_][a-z0-9_]*)[^{;]*->\s*(?:Result<)?(?:HashMap|HashSet|IdMap)\b')
@@ -39,7 +40,7 @@ def sites():
                 pat2 = re.compile(r'\bfor\b[^;{]*\bin\s+&?(?:mut\s+)?(?:self\s*\.\s*)?' + re.escape(n) + r'\b\s*\{')
                 for p in (pat, pat2):
                     for mm in p.finditer(s):
-                        out.append({'file': os.path.relpath(path, '/repo'), 'fn': fn, 'container': n, 'expr': re.sub(r'\s+', ' ', mm.group(0)).strip()})
+                        out.append({'file': os.path.relpath(path, REPO), 'fn': fn, 'container': n, 'expr': re.sub(r'\s+', ' ', mm.group(0)).strip()})
     # de-duplicate
     seen = set(); res = []
     for s in out:
